@@ -77,7 +77,9 @@ check(
     'pre_step/post_step observations and checked bitwise for chaining, up to rounding for tiling, for the end time, the returned value, '
     'aliasing of the caller value and (fixed step) the step count against exact rational arithmetic.',
     'Stub physics (1-dof test equation); restart/step-size decisions come from the script. Sampling, not proof. Known finding F02 '
-    '(sliver step at Tend) is reported as KNOWN-FINDING. ParaDiag controller not simulated; MPI controller covered by C08.',
+    '(sliver step at Tend), F09 (collocation-update lag in multi-step runs) and F18 (ParaDiag solves to the end of its block) are reported as '
+    'KNOWN-FINDING. controller_ParaDiag_nonMPI is driven with fixed steps; inside a ParaDiag block start values are compared up to 1e3*restol. '
+    'MPI controller covered by C08.',
     'deterministic simulation: seeded restart/step-size fault histories on the real serial controller, history check of the recorded accepted-step sequence',
     'DESIGN 3 (C06), 2.2',
 )
@@ -90,9 +92,11 @@ check(
     'real controller_nonMPI: scripted error estimates (physical background c*dt^(order+1) x noise, excursions, exact ties, failure runs longer '
     'than the retry budget) and restart requests at (block, slot) positions, plus real adaptive runs on van der Pol / Lorenz / Dahlquist. Six '
     'oracles: restart position and value (bitwise), one step size per block (bitwise), retry budget + counter hand-over against a reference + '
-    'progress, accept criterion, proposal formula and limiter chain against a 15-line reference (8 eps), retry smaller unless a lower limit binds.',
+    'progress, accept criterion, proposal formula and limiter chain against a 15-line reference (8 eps), retry smaller unless a lower limit binds, '
+    'and (R7) with overwrite_to_reach_Tend the run ends within the documented slack of Tend. Part B also drives AdaptivityRK, '
+    'AdaptivityPolynomialError, AdaptivityExtrapolationWithinQ and avoid_restarts.',
     'Part A overwrites the value of the embedded estimate at control order -60; everything else is shipped code. Runs hitting the block/step cap '
-    'are skipped and counted (no liveness claim for adversarial scripts). Polynomial/extrapolation estimators not driven yet. MPI flavours: C08.',
+    'are skipped and counted (no liveness claim for adversarial scripts). AdaptivityCollocation/AdaptivityResidual not driven. MPI flavours: C08.',
     'deterministic simulation: seeded error-estimate/restart fault sequences on the real step-size controllers, reference-model comparison of every decision point in the recorded history',
     'DESIGN 3 (C09), 2.2',
 )
@@ -122,7 +126,8 @@ check(
     'defect from the node values held (Q from qmat) and compares with the reported residual within a derived rounding bound; stopping soundness, '
     'iteration budget and logged values are judged on the recorded history.',
     'Sampling. Known finding F08 (finished at iteration 0 without a sweep) is reported as KNOWN-FINDING. Soft faults are never placed between '
-    'the computation of a residual and the decision taken on it. imex_1st_order_mass not driven. MPI flavour: C08.',
+    'the computation of a residual and the decision taken on it. imex_1st_order_mass and multi_implicit are driven on harness-owned problem '
+    'classes (sim/massproblem.py, listed as stubs). MPI flavour: C08.',
     'deterministic simulation: seeded soft-fault and convergence histories on the real controller, invariant checked at every callback against an independent re-evaluation',
     'DESIGN 3 (C03)',
 )
@@ -136,7 +141,8 @@ check(
     'iterates as transient-state perturbations; refinement against a sequential dense single-level collocation solver started from the actual '
     'end value of the previous step: |uend - uend_ref| <= kappa_end*(actual defect) + derived rounding.',
     'Sampling; linear/affine problems only (A, b(t) probed from a shadow instance). The bound is a consequence of linear algebra for any state, '
-    'so it detects end values/defects inconsistent with the node values, not slow convergence. multi_implicit not driven. MPI flavour: C08.',
+    'so it detects end values/defects inconsistent with the node values, not slow convergence; a second clause judges steps whose REPORTED '
+    'residual meets restol against kappa*restol. multi_implicit is driven on a harness-owned two-part problem. Known finding F12. MPI flavour: C08.',
     'deterministic simulation: seeded soft-fault injection into multi-level multi-step runs, refinement check against an executable reference model',
     'DESIGN 3 (C01)',
 )
@@ -162,11 +168,11 @@ check(
     'exploration',
     'Process histories of up to 8 operations without fork in between over a pool of up to 3 real controllers (fixed-step SDC/MLSDC/PFASST on '
     'stub and real physics; an adaptive/RK controller registering extra status variables, hooks and convergence controllers; two controllers '
-    'built from the very same dictionaries): new, run, rerun, run of another interval on a used controller, split at a block boundary and '
-    'continue on the same or a fresh controller. Reference for every run: the same run alone in a freshly forked child; returned value and '
+    'built from the very same dictionaries, or from dictionaries another RK/adaptive controller was built from just before): new, run, rerun, '
+    'run aborted by a user hook, run of another interval on a used controller, split at a block boundary and continue on the same or a fresh controller. Reference for every run: the same run alone in a freshly forked child; returned value and '
     'statistics must agree bit for bit (timing values aside), split runs must reproduce the uninterrupted per-step records.',
-    'Known findings F10 (RNG stream of initial_guess=random) and F11 (space transfer of order >= 6 depends on numpy\'s global RNG through '
-    'scipy BarycentricInterpolator) are reported as KNOWN-FINDING. The harness pins numpy\'s global RNG at the start of every history so that '
+    'Known findings F10 (RNG stream of initial_guess=random), F11 (space transfer of order >= 6 depends on numpy\'s global RNG through '
+    'scipy BarycentricInterpolator) and F17 (sweep-index dependent preconditioner left at its last index) are reported as KNOWN-FINDING. The harness pins numpy\'s global RNG at the start of every history so that '
     'histories replay exactly.',
     'deterministic simulation: seeded operation histories over long-lived controllers in one process, differential check against isolated (forked) reference executions',
     'DESIGN 3 (C19)',
